@@ -17,7 +17,7 @@ impl Monitor for C17 {
         "C17"
     }
     fn gens(&self, tier: Tier) -> Vec<(&'static str, u64)> {
-        vec![("loops", tier.pick(6000, 150_000))]
+        vec![("loops", tier.pick(240_000, 4_800_000))]
     }
     fn rule(&self) -> &'static str {
         "case i -> accumulation (i mod 5), input skips (i/5 mod 2), iterations k = 1 + (i/10 mod 4), representation (i/40 mod 3: dense range / spatial range of 'same' convolutions, deconvolutions, 1x1 pools and deconvolution+max-pool pairs / the same followed by a dense layer so that the loop output is flattened), position of the range (start / middle / end) and its length 1..3 random; predict is compared with the reference (o_0 = first output of layer b, o_t = f_{a..b}(o_{t-1} [+ input of a]), passed on = combine(o_0; o_1..o_k)) within the running f32 bound; for overwrite without input skips additionally bit-exact against a plain library network in which layers a..b are physically repeated k+1 times with the same weights. Distinct = distinct configuration descriptors."
